@@ -8,9 +8,29 @@
    there, or once the peer has closed. *)
 From Coq Require Import NArith List Bool Lia.
 From Coq.Strings Require Import Byte.
-From Opcua Require Import Model.UacpFraming Proofs.UacpFramingProofs.
+From Coq Require Import ZArith ZifyN ZifyBool.
+From Opcua Require Import Model.UacpFraming Proofs.UacpFramingProofs Gen.UacpFromGo.
 Import ListNotations.
 Open Scope N_scope.
+
+(* ---- tie to the source (Gen.UacpFromGo is regenerated from uacp/conn.go on every run) -------------------
+   The header length, the length of the receive buffer, the two size checks IN THE CODE'S ORDER and the slice
+   expressions on the receive buffer, as the translator reads them off the AST of Conn.Receive, are exactly
+   the ones Model.UacpFraming.receive is written with:  rbuf <? size  (too large) before  size <? hdrlen
+   (too small); b[:8], b[8:size], b[:size] on a buffer of rbuf bytes. *)
+Theorem C05_tied_to_source :
+  go_hdrlen = Z.of_N hdrlen /\
+  (forall size rbuf : N, go_Receive_make (Z.of_N size) (Z.of_N rbuf) go_hdrlen = Z.of_N rbuf) /\
+  (forall size rbuf : N,
+     go_Receive_size_checks (Z.of_N size) (Z.of_N rbuf) go_hdrlen = [rbuf <? size; size <? hdrlen]) /\
+  (forall size rbuf : N,
+     go_Receive_slices (Z.of_N size) (Z.of_N rbuf) go_hdrlen =
+     [(0, 8); (0, 8); (8, Z.of_N size); (8, Z.of_N size); (0, Z.of_N size)]%Z).
+Proof.
+  split; [reflexivity|]. split; [reflexivity|]. split; [|reflexivity].
+  intros size rbuf. unfold go_Receive_size_checks, go_hdrlen, hdrlen.
+  f_equal; [|f_equal]; lia.
+Qed.
 
 (* io.ReadFull over any segmentation = firstn / skipn of the concatenation *)
 Theorem C05_read_full_any_segmentation : forall (s : stream) (n : nat),
@@ -125,6 +145,7 @@ Example C05_malformed_nonvacuous :
   fst (receive_all 5 18 (segment [20] (ex_f1 ++ [x4d; x53; x47; x46; x13; x00; x00; x00] ++ ex_f3))) = [Ok ex_f1; Err ETooLarge].
 Proof. vm_compute. auto. Qed.
 
+Print Assumptions C05_tied_to_source.
 Print Assumptions C05_read_full_any_segmentation.
 Print Assumptions C05_segmentation_independent.
 Print Assumptions C05_frames.
